@@ -385,6 +385,21 @@ def gen_history(rng, thorough):
                             for t in descs[b]["net"]["tensors"]:
                                 if t[4] == old:
                                     t[4] = ea[0]
+    # data dictionaries may carry entries that no tensor of their own network references (a dictionary shared between networks):
+    # on merge they are part of the union like any other entry - equal to the first operand's entry (fine) or clashing (must be rejected)
+    if nn >= 2 and rng.random() < 0.3:
+        a, b = rng.sample(range(nn), 2)
+        if descs[a]["data"]:
+            ea = rng.choice(descs[a]["data"])
+            if all(e[0] != ea[0] for e in descs[b]["data"]):
+                vals = copy.deepcopy(ea[1])
+                if rng.random() < 0.6:
+                    flat = np.array(vals).reshape(-1)
+                    if flat.size:
+                        flat = flat.copy()
+                        flat[rng.randrange(flat.size)] += rng.choice([1, -2, 5])
+                        vals = flat.reshape(ea[2]).tolist()
+                descs[b]["data"].append([ea[0], vals, list(ea[2])])
     malformed = []
     if rng.random() < 0.10:
         k = rng.randrange(nn)
